@@ -373,6 +373,8 @@ def run_brokers(wd, scs):
     defs, terms, steps = [], [], []
     for i, (sc, tr) in enumerate(zip(scs, trs)):
         if "snaps" not in tr:
+            if isinstance(tr, dict) and "panic" in tr:
+                raise ImplementationPanic(tr["panic"], sc, "setting up broker scenario %d (builder, client, dataset)" % i)
             raise RuntimeError("harness-level failure on broker scenario %d: %s" % (i, str(tr)[:500]))
         d, t, s = broker_steps(sc, tr, i)
         defs.append(d)
